@@ -129,7 +129,7 @@ pub fn run(ctx: &Ctx) -> i32 {
         if ti % 173 == (ctx.seed as usize % 173) { acc.sample(json!({"tree": m.show(), "target_subsets": (1u32 << k) - 1, "plus_absent": true})) }
         acc
     }).reduce(Acc::new, Acc::merge);
-    let wide = families::wide_tier(th);
+    let wide = families::wide_all(th);
     let accw = wide.par_iter().enumerate().with_max_len(1).map(|(wi, (wn, m))| {
         let mut acc = Acc::new();
         let Ok(e) = catch(|| bind::build(m, 0)) else { return acc };
@@ -138,11 +138,28 @@ pub fn run(ctx: &Ctx) -> i32 {
         let mut sets: Vec<Vec<D>> = picks.iter().map(|i| vec![ds[*i]]).collect();
         for w in picks.windows(2) { sets.push(vec![ds[w[0]], ds[w[1]]]) }
         sets.push(vec![ds[ds.len() - 1], families::absent_digest()]);
+        // large target sets (more than 16 / 32 / 64 targets), honest and with absent digests mixed in
+        for k in [16usize, 17, 33, 65] { if ds.len() >= k { sets.push(ds[..k].to_vec()); sets.push(ds[ds.len() - k..].to_vec()) } }
+        if ds.len() > 17 { sets.push(ds.clone()); }
+        for k in [15usize, 16, 17, 40] { for &i in picks.iter().take(3) { let mut v = vec![ds[i]]; v.extend(families::absent_digests(k)); sets.push(v) } }
+        // verifier alone: an honest proof for a large set checked against the same set with one target swapped for an absent digest, and
+        // a proof for one (possibly many-position) target checked against that target plus absent ones
+        for k in [17usize, 33] { if ds.len() >= k {
+            let tv = ds[..k].to_vec(); let tset = bind::dset(&tv);
+            if let Ok(Some(proof)) = catch(|| e.proof_contains_set(&tset)) {
+                for swap in [0, k / 2, k - 1] { acc.inc("proof_requests"); let mut bad = tv.clone(); bad[swap] = families::absent_digest();
+                    if let Ok(true) = catch(|| bind::elided_from_digest(root).confirm_contains_set(&bind::dset(&bad), &proof)) { acc.viol("C12|sound|wide|absent-target-confirmed", "a proof is accepted for a target set containing a digest that occurs nowhere in it", format!("wide/{wn}/swap{swap}-of-{k}"), json!({"shape": wn})) } }
+            }
+        } }
+        for &i in picks.iter().take(4) { let tset1 = bind::dset(&[ds[i]]); if let Ok(Some(proof)) = catch(|| e.proof_contains_set(&tset1)) { for k in [1usize, 16, 17, 40] {
+            acc.inc("proof_requests"); let mut bad = vec![ds[i]]; bad.extend(families::absent_digests(k));
+            if let Ok(true) = catch(|| bind::elided_from_digest(root).confirm_contains_set(&bind::dset(&bad), &proof)) { acc.viol("C12|sound|wide|absent-target-confirmed", "a proof is accepted for a target set containing digests that occur nowhere in it", format!("wide/{wn}/target{i}+{k}absent"), json!({"shape": wn})) }
+        } } }
         for tv in sets {
             acc.inc("proof_requests");
             let t: HashSet<D> = tv.iter().cloned().collect(); let tset = bind::dset(&tv);
-            let absent = tv.contains(&families::absent_digest());
-            let cid = || format!("wide/{wn}/{}", tv.iter().map(|d| hex::encode(&d[..3])).collect::<Vec<_>>().join("+"));
+            let absent = tv.iter().any(|d| !ds.contains(d));
+            let cid = || format!("wide/{wn}/{}", tv.iter().take(4).map(|d| hex::encode(&d[..3])).collect::<Vec<_>>().join("+") + &format!("/{}targets", tv.len()));
             let (mut p, mut a) = (HashSet::new(), HashSet::new()); paths(m, &t, &mut vec![], &mut p, &mut a);
             match catch(|| e.proof_contains_set(&tset)) {
                 Err(pn) => acc.viol(format!("C12|panic|{}", pn.site), pn.msg.clone(), cid(), json!({"shape": wn})),
